@@ -206,12 +206,18 @@ func Main() {
 	if err != nil {
 		os.Exit(5)
 	}
-	if err := st.Run(context.Background()); err != nil {
+	err = st.Run(context.Background())
+	if p.beh == BHangLater {
+		// stays around (at most until the self-destruct above) after closing its connection, whatever
+		// Run says about the listener it found closed
+		if err != nil {
+			p.appendLine(file+".runerr", err.Error())
+		}
+		time.Sleep(time.Hour)
+	}
+	if err != nil {
 		p.appendLine(file+".runerr", err.Error())
 		os.Exit(6)
-	}
-	if p.beh == BHangLater {
-		time.Sleep(time.Hour) // stays around (at most until the self-destruct above) after closing its connection
 	}
 }
 
